@@ -288,7 +288,7 @@ PROPS = {
     'C13': {
         'mc_quick': ['MC_quick_hash.cfg', 'MC_quick.cfg'], 'sim': ('MC_sim_hash.cfg', 100, 1500, 60), 'mc_thorough': [('MC_tiny.cfg', 900)],
         'title': 'Comparison modes',
-        'units': [('cmp', 2000, 30000), ('cmpback', 3000, 40000)],
+        'units': [('cmp', 2000, 30000), ('cmpback', 3000, 40000), ('bigfile', 2, 6)],
         'owned': {'ExecOnlyIfJustified', 'ReuseOnlyIfValid', 'OutputsNotRewritten'},
         'nontrivial': lambda st, sc: st['reuse'] > 0 and st['invfound'] > 0,
         'rule': 'touch / rewrite-keeping-size-and-mtime / rewrite of inputs and outputs between builds, reads '
